@@ -21,3 +21,9 @@ def register(reg):
     return impl
   for k in ('match', 'search', 'fullmatch'):
     tm[('regex', k)] = rx_method(k)
+
+  # ---- file objects: read() is a deterministic function of the file object
+  def file_read(ex, st, args, kwargs):
+    ex.ctx.use_trusted('file.read')
+    return [(st, VStr(z3.Function('file_read', z3.IntSort(), z3.StringSort())(args[0].t)))]
+  tm[('file', 'read')] = file_read
